@@ -130,7 +130,7 @@ def main():
                         cands.append((d, pid, name))
     else:
         for pid in ALL:
-            for x in "abcdefghijklmnop":
+            for x in "abcdefghijklmnopqrstuvwxyz":
                 d = os.path.join(a.src, pid, x)
                 if os.path.isdir(d) and (not a.only or a.only in f"{pid}-{x}"):
                     cands.append((d, pid, f"{pid}-{x}"))
